@@ -5,13 +5,23 @@
     correspondence checked on every run) and [dec] is a decoder written from
     Encodings.md.  The encoders take no destination buffer: the result cannot
     depend on what a reused buffer held (that the Go code behaves the same with
-    a dirty [dst] is part of the correspondence run).  The agreement of Go's own
-    decoders and of the CPU-specific kernels with these functions is checked
-    by differential execution, not proved (see DESIGN.md, C04). *)
+    a dirty [dst] is part of the correspondence run).
+
+    Go's own decoders are modelled too (Enc/GoDec*.v: the portable code of
+    rle.go, delta/binary_packed.go, delta/*byte_array*.go, statement by
+    statement, malformed input included) and proved to return what the
+    specification decoders return -- on the encoders' output and, for the
+    RLE hybrid and DELTA_BINARY_PACKED, on every byte string the specification
+    decoder accepts within the limits of a 64-bit reader (theorems
+    [C04_go_decoder_*] below).  The models are tied to the code by differential
+    execution on Go's bytes, on malformed streams and on conforming streams
+    that Go's encoders do not write; the CPU-specific kernels are compared with
+    the same models by execution, not modelled (see DESIGN.md, C04). *)
 From Coq Require Import List NArith ZArith Lia.
 From PQ Require Import Base.Bytes Base.Varint Base.BitPack.
 From PQ Require Import Enc.DeltaBP Enc.DeltaBPProofs Enc.Rle Enc.RleProofs.
 From PQ Require Import Enc.Plain Enc.PlainProofs Enc.ByteArrayDelta Enc.ByteArrayDeltaProofs.
+From PQ Require Import Enc.GoDecBase Enc.GoDecRle Enc.GoDecRleProofs Enc.GoDecDelta Enc.GoDecDeltaProofs.
 Import ListNotations.
 Open Scope N_scope.
 
@@ -134,3 +144,215 @@ Theorem C04_pinned_rle_boolean_refuted :
   exists nbytes n, dec_boolean_n n (enc_boolean_pinned_all_true nbytes)
                    <> Some (firstn n (bits_of (repeat 255 nbytes))).
 Proof. exists 2%nat, 16%nat. vm_compute. discriminate. Qed.
+
+(** * Go's own decoders (models of the portable Go code, Enc/GoDec*.v)
+
+    [GOk x]: Go returns [x] and a nil error; [GErr]: an error; [GPanic]: a panic. *)
+
+(** RLE / bit-packed hybrid, levels (decodeBytes, widths 0..8) and int32
+    (decodeInt32, widths 0..32): on EVERY byte string accepted by
+    [dec_hybrid64] -- the specification decoder restricted to run headers of at
+    most 10 bytes / 64 bits announcing 1 .. MaxInt32 values -- Go returns the
+    values the specification decoder returns.  Partial with respect to "Go
+    accepts everything the specification decoder accepts": see
+    [C04_go_decoder_rle_accepts_spec_full_refuted]. *)
+Theorem C04_go_decoder_rle_levels_accepts_spec_partial : forall w b xs,
+  w <= 8 -> dec_hybrid64 w b = Some xs ->
+  go_decode_levels w b = GOk xs /\ dec_hybrid w b = Some xs.
+Proof. exact go_levels_refines_top. Qed.
+
+Theorem C04_go_decoder_rle_int32_accepts_spec_partial : forall w b xs,
+  w <= 32 -> dec_hybrid64 w b = Some xs ->
+  go_decode_int32_top w b = GOk xs /\ dec_hybrid w b = Some xs.
+Proof. exact go_int32_refines_top. Qed.
+
+(** what the restriction leaves out is really different in Go: a run header
+    announcing 0 values is skipped without reading a value *)
+Definition C04_go_decoder_rle_accepts_spec_full_statement : Prop :=
+  forall w b xs, w <= 8 -> dec_hybrid w b = Some xs -> go_decode_levels w b = GOk xs.
+
+Theorem C04_go_decoder_rle_accepts_spec_full_refuted :
+  ~ C04_go_decoder_rle_accepts_spec_full_statement.
+Proof. exact go_levels_accepts_spec_full_refuted. Qed.
+
+(** any partition into non-empty runs of at most MaxInt32 values -- run-length
+    runs of any length, as other writers produce them -- is decoded by Go *)
+Theorem C04_go_decoder_rle_levels_any_runs : forall w rs,
+  w <= 8 -> Forall (wf_run w) rs -> Forall go_run_ok rs ->
+  go_decode_levels w (serialize w rs) = GOk (concat (map expand rs)).
+Proof. exact go_levels_any_runs. Qed.
+
+Theorem C04_go_decoder_rle_int32_any_runs : forall w rs,
+  w <= 32 -> Forall (wf_run w) rs -> Forall go_run_ok rs ->
+  go_decode_int32_top w (serialize w rs) = GOk (concat (map expand rs)).
+Proof. exact go_int32_any_runs. Qed.
+
+(** Go decode (Go encode x) = x = specification decode (Go encode x) *)
+Theorem C04_go_decoder_rle_levels : forall w src,
+  w <= 8 -> fits w src -> N.of_nat (length src) <= max_count ->
+  exists b, enc_levels w src = Some b /\ go_decode_levels w b = GOk src /\ dec_hybrid w b = Some src.
+Proof. exact go_levels_roundtrip. Qed.
+
+Theorem C04_go_decoder_rle_int32 : forall w src,
+  w <= 32 -> fits w src -> N.of_nat (length src) <= max_count ->
+  exists b, enc_int32 w src = Some b /\ go_decode_int32_top w b = GOk src /\ dec_hybrid w b = Some src.
+Proof. exact go_int32_roundtrip. Qed.
+
+Theorem C04_go_decoder_rle_dictionary_indexes : forall src,
+  Forall (fun v => v < 2 ^ 32) src -> N.of_nat (length src) <= max_count ->
+  exists b, enc_dict_indexes src = Some b /\ go_decode_dict b = GOk src /\ dec_dict_indexes b = Some src.
+Proof. exact go_dict_roundtrip. Qed.
+
+(** booleans (decodeBits, with its bit position across runs): the packed
+    bytes come back; their bits are what the specification decoder returns.
+    Conforming streams whose run-length runs are not multiples of 8 (which
+    Go's encoder does not write) are covered by execution only. *)
+Theorem C04_go_decoder_rle_boolean : forall src,
+  wf_bytes src -> N.of_nat (length src) < 2 ^ 26 ->
+  go_decode_boolean (enc_boolean src) = GOk src.
+Proof. exact go_boolean_roundtrip. Qed.
+
+Theorem C04_go_decoder_rle_boolean_agrees_spec : forall src n,
+  wf_bytes src -> N.of_nat (length src) < 2 ^ 26 -> (n <= 8 * length src)%nat ->
+  exists packed, go_decode_boolean (enc_boolean src) = GOk packed /\
+                 dec_boolean_n n (enc_boolean src) = Some (firstn n (bits_of packed)).
+Proof. exact go_boolean_agrees_spec. Qed.
+
+(** DELTA_BINARY_PACKED: on EVERY well-formed byte string accepted by [dec64]
+    (the specification decoder with varints of at most 10 bytes / 64 bits)
+    whose header passes Go's checks, decodeInt32 / decodeInt64 return the same
+    values and the same remaining input: any block size (multiple of 128, at
+    most 65536) and mini-block count, any min delta, any bit widths.  Partial
+    with respect to "Go accepts everything the specification decoder accepts":
+    [C04_go_decoder_delta_accepts_spec_full_refuted]. *)
+Theorem C04_go_decoder_delta_accepts_spec_partial : forall k b xs rest h,
+  wf_bytes b -> dec64 k b = Some (xs, rest) ->
+  go_dbp_header b = GOk h -> first_ok k (snd (fst h)) ->
+  go_dbp_dec k b = GOk (xs, rest) /\ DeltaBP.dec k b = Some (xs, rest).
+Proof.
+  exact (fun k b xs rest h Hw Hd Hh Hf =>
+           conj (go_dbp_refines k b xs rest h Hw Hd Hh Hf) (dec64_sound k b _ Hd)).
+Qed.
+
+Definition C04_go_decoder_delta_accepts_spec_full_statement : Prop :=
+  forall k b r, (k = 32 \/ k = 64) -> wf_bytes b -> DeltaBP.dec k b = Some r -> go_dbp_dec k b = GOk r.
+
+Theorem C04_go_decoder_delta_accepts_spec_full_refuted :
+  ~ C04_go_decoder_delta_accepts_spec_full_statement.
+Proof. exact go_dbp_accepts_spec_full_refuted. Qed.
+
+(** Go decode (Go encode xs ++ tail) = (xs, tail), int32 and int64 *)
+Theorem C04_go_decoder_delta_int32 : forall xs tail,
+  Forall (in_sint 32) xs -> N.of_nat (length xs) <= max_int32 -> wf_bytes tail ->
+  go_dbp_dec 32 (DeltaBP.enc 32 xs ++ tail) = GOk (xs, tail).
+Proof. exact (go_dbp_roundtrip 32 (or_introl eq_refl)). Qed.
+
+Theorem C04_go_decoder_delta_int64 : forall xs tail,
+  Forall (in_sint 64) xs -> N.of_nat (length xs) <= max_int32 -> wf_bytes tail ->
+  go_dbp_dec 64 (DeltaBP.enc 64 xs ++ tail) = GOk (xs, tail).
+Proof. exact (go_dbp_roundtrip 64 (or_intror eq_refl)). Qed.
+
+(** DELTA_LENGTH_BYTE_ARRAY: Go returns the value bytes and the offsets that
+    cut them into the values; DELTA_BYTE_ARRAY: the values *)
+Theorem C04_go_decoder_delta_length_byte_array : forall vs,
+  Forall short vs -> Forall wf_bytes vs ->
+  N.of_nat (length vs) <= max_int32 -> N.of_nat (length (concat vs)) < 2 ^ 32 ->
+  go_dlba_dec (dlba_enc vs) = GOk (concat vs, offsets_from 0 vs)
+  /\ unflatten (concat vs) (offsets_from 0 vs) = vs.
+Proof. exact go_dlba_roundtrip. Qed.
+
+Theorem C04_go_decoder_delta_byte_array : forall vs,
+  Forall short vs -> Forall wf_bytes vs -> N.of_nat (length vs) <= max_int32 ->
+  go_dba_dec (dba_enc vs) = GOk vs.
+Proof. exact go_dba_roundtrip. Qed.
+
+Print Assumptions C04_go_decoder_rle_levels_accepts_spec_partial.
+Print Assumptions C04_go_decoder_rle_int32_accepts_spec_partial.
+Print Assumptions C04_go_decoder_rle_accepts_spec_full_refuted.
+Print Assumptions C04_go_decoder_rle_levels_any_runs.
+Print Assumptions C04_go_decoder_rle_int32_any_runs.
+Print Assumptions C04_go_decoder_rle_levels.
+Print Assumptions C04_go_decoder_rle_int32.
+Print Assumptions C04_go_decoder_rle_dictionary_indexes.
+Print Assumptions C04_go_decoder_rle_boolean.
+Print Assumptions C04_go_decoder_rle_boolean_agrees_spec.
+Print Assumptions C04_go_decoder_delta_accepts_spec_partial.
+Print Assumptions C04_go_decoder_delta_accepts_spec_full_refuted.
+Print Assumptions C04_go_decoder_delta_int32.
+Print Assumptions C04_go_decoder_delta_int64.
+Print Assumptions C04_go_decoder_delta_length_byte_array.
+Print Assumptions C04_go_decoder_delta_byte_array.
+
+(** Non-vacuity of the hypotheses of the [_accepts_spec_partial] theorems:
+    streams that Go's encoders do not write. *)
+
+(** levels, width 3: a run-length run of 3 values, a bit-packed group, a
+    run-length run of 13 values *)
+Example C04_ex_go_rle_foreign :
+  dec_hybrid64 3 [6; 5; 3; 136; 198; 250; 26; 7]
+  = Some [5; 5; 5; 0; 1; 2; 3; 4; 5; 6; 7; 7; 7; 7; 7; 7; 7; 7; 7; 7; 7; 7; 7; 7]
+  /\ go_decode_levels 3 [6; 5; 3; 136; 198; 250; 26; 7]
+     = GOk [5; 5; 5; 0; 1; 2; 3; 4; 5; 6; 7; 7; 7; 7; 7; 7; 7; 7; 7; 7; 7; 7; 7; 7].
+Proof. split; vm_compute; reflexivity. Qed.
+
+Example C04_ex_go_rle_runs_hyp :
+  Forall (wf_run 3) [RunRLE 3 5; RunBP [[0; 1; 2; 3; 4; 5; 6; 7]]; RunRLE 13 7]
+  /\ Forall go_run_ok [RunRLE 3 5; RunBP [[0; 1; 2; 3; 4; 5; 6; 7]]; RunRLE 13 7].
+Proof.
+  split; repeat constructor; vm_compute; try reflexivity; try discriminate.
+Qed.
+
+(** DELTA_BINARY_PACKED with block size 256, 2 mini-blocks of 128 values, a
+    min delta that is not the minimum and a bit width larger than needed:
+    nothing Go's encoder writes *)
+Definition C04_ex_delta_foreign_stream : bytes :=
+  [128; 2; 2; 3; 14] ++ [5] ++ [4; 0] ++ (1 :: repeat 0 63).
+
+Example C04_ex_go_delta_foreign :
+  dec64 32 C04_ex_delta_foreign_stream = Some ([7; 5; 2]%Z, [])
+  /\ go_dbp_dec 32 C04_ex_delta_foreign_stream = GOk ([7; 5; 2]%Z, [])
+  /\ exists h, go_dbp_header C04_ex_delta_foreign_stream = GOk h /\ first_ok 32 (snd (fst h)).
+Proof.
+  split; [vm_compute; reflexivity|]. split; [vm_compute; reflexivity|].
+  eexists. split; [vm_compute; reflexivity|]. intros _. unfold in_sint. cbn. lia.
+Qed.
+
+Example C04_ex_go_delta_extremes :
+  go_dbp_dec 32 (DeltaBP.enc 32 [-2147483648; 2147483647; 0; -1; 7]%Z ++ [9])
+  = GOk ([-2147483648; 2147483647; 0; -1; 7]%Z, [9]).
+Proof. vm_compute. reflexivity. Qed.
+
+Example C04_ex_go_dba :
+  go_dba_dec (dba_enc [[104; 101; 108; 108; 111]; [104; 101; 108; 112]; []; [104]])
+  = GOk [[104; 101; 108; 108; 111]; [104; 101; 108; 112]; []; [104]].
+Proof. vm_compute. reflexivity. Qed.
+
+(** the repaired decodeBits on a conforming stream with a run-length run of 10
+    values followed by a bit-packed group *)
+Example C04_ex_go_boolean_unaligned :
+  exists packed, go_decode_boolean [4; 0; 0; 0; 20; 1; 3; 0] = GOk packed /\
+                 Some (firstn 16 (bits_of packed)) = dec_boolean_n 16 [4; 0; 0; 0; 20; 1; 3; 0].
+Proof. exact go_boolean_unaligned_example. Qed.
+
+(** Pinned (pre-repair) behaviour of Go's decoders, from the faithful models of
+    the code before 70434b6 and 75827ad. *)
+
+(** rle.decodeInt32 sliced a bit-packed run longer than the input unchecked: a
+    panic (or, with spare capacity behind the slice, a decode of the bytes
+    found there) where the specification decoder and the repaired code reject *)
+Theorem C04_pinned_rle_int32_truncated_refuted :
+  exists w b, dec_hybrid w b = None /\ go_decode_int32_pinned w b = GPanic
+              /\ go_decode_int32_top w b = GErr.
+Proof. exact go_int32_pinned_truncated_refuted. Qed.
+
+(** rle.decodeBits placed every run-length run on a byte boundary: a
+    conforming stream (10 x true, then a bit-packed group) decoded to other
+    values than the specification decoder's, without error *)
+Theorem C04_pinned_rle_boolean_unaligned_refuted :
+  exists b n packed,
+    go_decode_boolean_pinned b = GOk packed /\
+    exists bits, dec_boolean_n n b = Some bits /\ firstn n (bits_of packed) <> bits.
+Proof. exact go_boolean_pinned_unaligned_refuted. Qed.
+
+Print Assumptions C04_pinned_rle_int32_truncated_refuted.
+Print Assumptions C04_pinned_rle_boolean_unaligned_refuted.
